@@ -21,7 +21,7 @@ def op_chains(rng, q, focus):
         for _ in range(rng.randint(2, 6)):
             x = rng.random()
             if x < (0.55 if focus == "C13" else 0.3):
-                k = rng.choice([0, 1, n - 1, n, n + 1, 2 * n, -1, -n, -n - 2, rng.randrange(-2 * n, 2 * n + 1), n // 2, 2, 3, 4, n // 3])
+                k = rng.choice([0, 1, n - 1, n, n + 1, 2 * n, -1, -n, -n - 2, rng.randrange(-2 * n, 2 * n + 1), n // 2, 2, 3, 4, n // 3, 10**9 + rng.randrange(100), -(10**9) - rng.randrange(100)])
                 ops.append((rng.choice("RL"), k))
             elif x < (0.7 if focus != "C15" else 0.4):
                 ops.append(("RC",))
@@ -100,6 +100,28 @@ def exhaustive_small(rng, focus):
         # the same at every rotation of the record (C15: the answer is the same for every rotation)
         for k in range(n):
             out.append((rec >> k, ops))
+    # the degenerate circles: no letter at all, one letter, two letters (every k is a multiple of the length / of 1)
+    from Bio.Seq import Seq
+    from moclo.record import CircularRecord
+    for word in ("", "A", "g", "AC", "TT"):
+        n = len(word)
+        rec = CircularRecord(Seq(word), id="tiny%d" % n, name="tiny", description="d", annotations={"topology": "circular", "molecule_type": "DNA"},
+                             letter_annotations={"q": list(range(n))})
+        if n:
+            from Bio.SeqFeature import FeatureLocation, SeqFeature
+            rec.features.append(SeqFeature(FeatureLocation(0, n, strand=1), type="misc_feature", qualifiers={"label": ["all"]}))
+            rec.features.append(SeqFeature(FeatureLocation(n - 1, n, strand=-1), type="CDS", qualifiers={"label": ["last"]}))
+        ops = []
+        for k in (0, 1, -1, 2, n, -n, 7, 10**9 + 7, -(10**9) - 3):
+            ops.append(("R", k))
+            ops.append(("L", k))
+            if focus == "C14":
+                ops.append(("RC",))
+                ops.append(("COMM", k % 1000))
+        if focus == "C15":
+            ops = [("IN", ""), ("IN", "A"), ("IN", word), ("IN", word + word), ("IN", (word + "C")[:2]), ("SL", 0, 0), ("SL", -1, 3), ("SL", 0, n),
+                   ("SLS", None, None, -1), ("SLS", None, None, 2), ("ADD", "left", "str"), ("ADD", "right", "Seq"), ("R", 0), ("IN", word)]
+        out.append((rec, ops))
     return out
 
 
